@@ -10,7 +10,7 @@ RULE = (
     "distinct = hash of the configuration; trivial = no option restricts anything"
 )
 ASSUMPTIONS = ["filter_ and stop are pure functions of the node (the library may evaluate stop more than once per node)"]
-GATES = ["mon.C06.sequence", "C06.stop_on_start", "C06.filtered_with_visible_children", "C06.stop_below_filtered", "C06.empty_group", "C06.maxlevel_le_0", "C06.maxlevel_cuts", "C06.predicate_objects_reused", "C06.predicate_shape.1", "C06.predicate_shape.2", "C06.predicate_shape.3", "C06.predicate_shape.4", "C06.maxlevel_int_subclass", "mon.C06.raising_predicate", "C06.prepared_before_predicates_settled"]
+GATES = ["mon.C06.sequence", "C06.stop_on_start", "C06.filtered_with_visible_children", "C06.stop_below_filtered", "C06.empty_group", "C06.maxlevel_le_0", "C06.maxlevel_cuts", "C06.predicate_objects_reused", "C06.predicate_shape.1", "C06.predicate_shape.2", "C06.predicate_shape.3", "C06.predicate_shape.4", "C06.maxlevel_int_subclass", "mon.C06.raising_predicate", "C06.prepared_before_predicates_settled", "C06.truthy_non_bool_answers", "C06.abandoned_traversal_before"]
 
 
 def plan(tier, seed, jobs):
@@ -73,6 +73,20 @@ def check_config(ctx, nodes, idmap, tr, par, stop, hidden, maxlevel, case, use_n
             kw["stop"] = predicate(shape, lambda n: idmap[id(n)] in stop)
         if not (use_none and not hidden):
             kw["filter_"] = predicate((shape + 1) % 5, lambda n: idmap[id(n)] not in hidden)
+        if (len(stop) + len(hidden) + s) % 5 == 2:
+            ctx.count("C06.truthy_non_bool_answers")
+            if "stop" in kw:
+                kw["stop"] = truthy(kw["stop"])
+            if "filter_" in kw:
+                kw["filter_"] = truthy(kw["filter_"])
+        if stop and (len(stop) + s) % 6 == 1:
+            # another traversal of the same tree, with the complementary stop set, was started and abandoned just before
+            ctx.count("C06.abandoned_traversal_before")
+            other = frozenset(range(len(nodes))) - stop
+            for _, itcls0 in ITERS:
+                it0 = itcls0(nodes[0], stop=lambda n: idmap[id(n)] in other)
+                next(it0, None)
+                del it0
     if not (use_none and maxlevel is None):
         kw["maxlevel"] = maxlevel
         if maxlevel is not None and (len(stop) + len(hidden) + s) % 4 == 3:
@@ -190,11 +204,23 @@ def predicate(shape, fn):
     return fn
 
 
+def truthy(fn):
+    """The same predicate answering with truthy / falsy non-bool values (a match object or None, a list, a string)."""
+    answers = (("yes", ""), ([0], []), (1, 0), (object(), None))
+
+    def pred(n, state={"i": 0}):
+        state["i"] += 1
+        yes, no = answers[state["i"] % len(answers)]
+        return yes if fn(n) else no
+
+    return pred
+
+
 def run(ctx):
     from .. import trees as TR
 
     T = ctx.tier == "thorough"
-    fams = TR.READ_FAMILIES
+    fams = TR.READ_FAMILIES + ("BARE",)
     idx = 0
     nfull = 6 if T else 5
     for n in range(1, nfull + 1):
